@@ -252,14 +252,18 @@ func (ci *ChunkInfo) getChunkCid(rootCid boson.Address) []*PyramidCidNum {
 	return cids
 }
 
-func (ci *ChunkInfo) getCidSort(rootCid, cid boson.Address) int {
+// getCidSort returns the index of the data chunk cid within the file and
+// whether cid is a data chunk of the file at all (intermediate and manifest
+// chunks have no index).
+func (ci *ChunkInfo) getCidSort(rootCid, cid boson.Address) (int, bool) {
 	ci.cp.RLock()
 	defer ci.cp.RUnlock()
 	pyramid, err := ci.getPyramid(rootCid)
 	if err != nil {
-		return 0
+		return 0, false
 	}
-	return pyramid.cids[cid.String()].sort
+	c, ok := pyramid.cids[cid.String()]
+	return c.sort, ok
 }
 
 // func (cp *chunkPyramid) updateCidSort(rootCid, cid boson.Address, sort int) {
